@@ -150,3 +150,30 @@ Definition doc_send_allowed (c : config) (sender receiver : addr) (amt : coins) 
         forallb (fun p => doc_validate_send_denom c sender receiver (fst p) agents) amt
       else false
     else false.
+
+(** ** "The receiver's attributes decide": the documented situation in which a one-coin send stands or
+    falls with the required attributes alone — an ordinary sender (no marker, no context bypass, not a
+    module sender) without transfer permission and not deny-listed, no transfer agent with transfer
+    permission, an ordinary receiver (no marker, no bypass account, not the fee collector), an active
+    restricted marker with at least one required attribute. *)
+Definition attribute_decided (c : config) (sender receiver : addr) (d : denom) : bool :=
+  negb (cfg_ctx_bypass c || addr_eqb sender (cfg_marker_module c) || addr_eqb sender (cfg_ibc_module c)) &&
+  match marker_at c sender with Some _ => false | None => true end &&
+  match marker_at c receiver with Some _ => false | None => true end &&
+  match marker_for_denom c d with
+  | Some m =>
+      marker_active m && restricted_coin c d &&
+      negb (addr_eqb receiver (cfg_fee_collector c)) &&
+      negb (some_agent_has m (cfg_agents c) AcTransfer) &&
+      negb (on_deny_list c d sender) &&
+      negb (has_role m sender AcTransfer) &&
+      negb (bypass_account c receiver) &&
+      match m_req_attrs m with [] => false | _ :: _ => true end
+  | None => false
+  end.
+
+(** The documented verdict there, from the two lists of names alone: every requirement has SOME
+    attribute of the receiver that matches it (an attribute may serve several requirements). *)
+Definition each_requirement_matched (required attrs : list name) : bool :=
+  forallb (fun r => existsb (doc_match r) attrs) required.
+
